@@ -6,9 +6,10 @@
   (core/directives.cpp: `.equ NAME = VALUE`, `.def`), and the statement loop of
   AsmContext::assemble as far as the reader-exposing command `mexp` needs it.
 
-  Model of the code AS FIXED by the two `fix:` commits of this property:
-  parameter names are matched at word starts only (`inWord`), and every
-  expansion is released from the parameter arena.
+  Model of the code AS FIXED by the `fix:` commits of this property:
+  parameter names are matched at word starts only (`inWord`), every expansion
+  is released from the parameter arena, `equ` values are stored with a trailing
+  blank like `.define` values, `.endm` is recognised at the start of the text.
 -/
 import NakenVerif.Macro.Lexer
 
@@ -48,7 +49,8 @@ def checkEndm (mac : List Ch) : Option (List Ch) :=
   else
     let p := walkBack mac isBlank (mac.length - 1)
     let p := walkBack mac (fun c => !isBlankNl c) p
-    let p := p + 1
+    -- step over the white space in front of the word, if there is any
+    let p := if isBlankNl (mac.getD p 0) then p + 1 else p
     if ((mac.drop p).take 5).map lowerC = [ch '.', ch 'e', ch 'n', ch 'd', ch 'm'] then
       some (mac.take p)
     else none
@@ -259,7 +261,7 @@ def equLine (env : Env) (name : List Ch) (n : Nat) : Prog DefRes :=
   (equLoop n []).bind fun r =>
     match r with
     | none => .ret { ret := -1 }
-    | some text => .ret { ret := 0, def? := macrosAppend env name (macrosStrip (cstr text)) 0 }
+    | some text => .ret { ret := 0, def? := macrosAppend env name (macrosStrip (cstr text) ++ [ch ' ']) 0 }
 
 /-- parse_equ(): `.equ NAME = VALUE` -/
 def parseEqu (env : Env) (n : Nat) : Prog DefRes :=
@@ -285,6 +287,6 @@ def parseEqu (env : Env) (n : Nat) : Prog DefRes :=
                 if t4.fatal then .ret { ret := -1, acc := acc, stop := some .fatal }
                 else if t4.fuel then .ret { ret := -1, acc := acc, stop := some .fuel }
                 else if t4.ty ≠ .eol ∧ t4.ty ≠ .eof then .ret { ret := -1, acc := acc }
-                else .ret { ret := 0, def? := macrosAppend env (cstr t1.text) (cstr t3.text) 0, acc := acc }
+                else .ret { ret := 0, def? := macrosAppend env (cstr t1.text) (cstr t3.text ++ [ch ' ']) 0, acc := acc }
 
 end NakenVerif.Macro
